@@ -398,6 +398,14 @@ func (w *World) collect() {
 			c.seenClosed = true
 			w.rc.Logf("t=%s client closed connection to %s", w.clock(), p.addr.IP)
 			w.clientCloses++
+			c.mu.Lock()
+			first := !c.closedRemote
+			c.mu.Unlock()
+			if first && p.shook {
+				// the client cut an established connection the node had
+				// not closed
+				p.clientCuts++
+			}
 		}
 	}
 }
